@@ -53,6 +53,51 @@ def gen_simple(rng):
     return {"k": "simple", "init": init, "ops": ops}
 
 
+def gen_simple_marks(rng):
+    """the issuer of config history ids as ConfigActor drives it: next_state (publish), next_section (import),
+    set_valid_last_id (a replicated mark arriving) — no set_last_id / next_id, which carry no replicated mark"""
+    init = [rng.choice([0, 0, 5, 100, 999]), rng.choice([1, 2, 3, 7, 100, 100])]
+    ops = []
+    for _ in range(rng.randrange(4, 40)):
+        r = rng.random()
+        if r < 0.6:
+            ops.append(["next_state"])
+        elif r < 0.82:
+            ops.append(["section", rng.choice([1, 2, 5, 30, 100])])
+        elif r < 0.92:
+            ops.append(["set_valid", rng.choice([0, 3, 100, 101, 150, 200, 250, 1000])])
+        else:
+            ops.append(["end"])
+    ops.append(["state"])
+    return {"k": "simple", "init": init, "ops": ops, "marks_only": True}
+
+
+def oracle_simple_marks(c, out):
+    """C19 across a restart: a node rebuilt from the replicated marks continues at (highest mark)+1, so an id handed out
+    above every mark replicated so far would be handed out twice.  Marks: next_state's announced window end, a section's
+    end (carried by the import's entries), a mark received through set_valid_last_id.  Also: ids strictly increase."""
+    top, last = None, None
+    for i, (op, o) in enumerate(zip(c["ops"], out)):
+        ids = []
+        if op[0] == "next_state" and isinstance(o, list):
+            if o[1] is not None:
+                top = max(top or 0, o[1])
+            ids = [o[0]]
+        elif op[0] == "section" and isinstance(o, list) and op[1] > 0:
+            top = max(top or 0, o[1])
+            ids = [o[0]] if o[0] == o[1] else [o[0], o[1]]
+        elif op[0] == "set_valid":
+            top = max(top or 0, op[1])
+        for x in ids:
+            if last is not None and x <= last:
+                return "op #%d %s hands out id %d after id %d was handed out" % (i, op, x, last)
+            if top is None or x > top:
+                return ("op #%d %s hands out id %d above every replicated mark (highest %s): a node rebuilt from the marks "
+                        "continues at %s and hands the id out a second time" % (i, op, x, top, (top or 0) + 1))
+            last = x
+    return None
+
+
 def gen_group(rng, disciplined):
     step = rng.choice([1, 2, 3, 5])
     ops = []
@@ -534,6 +579,11 @@ def run(chk, replay=None):
     seq_cases.append({"k": "simple", "init": [0, 0], "ops": [["state"], ["next_state"]]})
     for _ in range(150 if quick else 3000):
         seq_cases.append(gen_simple(rng))
+    # round 7: the import path (next_section between publishes), judged by the property itself (oracle_simple_marks)
+    seq_cases.append({"k": "simple", "init": [100, 7], "marks_only": True,
+                      "ops": [["next_state"], ["next_state"], ["section", 3], ["next_state"], ["next_state"], ["state"]]})
+    for _ in range(150 if quick else 3000):
+        seq_cases.append(gen_simple_marks(rng))
     for _ in range(200 if quick else 4000):
         seq_cases.append(gen_group(rng, True))
     for _ in range(100 if quick else 2000):
@@ -599,6 +649,17 @@ def run(chk, replay=None):
                 mism += 1
                 chk.violation("model != implementation (%s): %s" % (c["k"], d[:300]),
                               {"suite": "seq", "case": c, "diff": d, "correspondence": "SM.Sequence"}, False)
+
+    # ---- the property on the issuer of history ids (independent of the model): no id above every replicated mark
+    n_marks = 0
+    for c, r in zip(seq_cases, impl):
+        if c.get("marks_only") and r.get("r") == "ok":
+            n_marks += 1
+            w = oracle_simple_marks(c, r.get("out", []))
+            if w:
+                chk.classify("issuer-id-above-marks", "C19 SimpleSequence as the config actor drives it: %s" % w,
+                             {"suite": "seq", "case": c, "impl": r.get("out"), "failed": w})
+    chk.cov["issuer_mark_histories"] = n_marks
 
     # ---- multi-node histories of config history ids on real ConfigActors
     clusters = [witness_lost_mark()]
